@@ -10,8 +10,8 @@
 //! ```text
 //! create <rows>                     Dataset::write(Create), one batch = one fragment
 //! append <rows>                     Dataset::write(Append), one new fragment
-//! delete <expr>                     Dataset::delete(sql(expr))
-//! update c<i> <cell> <expr>         UpdateBuilder.update_where(sql(expr)).set(c<i>, cell)
+//! delete <expr> => <expr|?>         Dataset::delete(sql(expr)); the second expression as for `scan` (the filter scan of a
+//! update c<i> <cell> <expr> => <expr|?>   delete / update uses the scalar indices); UpdateBuilder.update_where(..).set(c<i>, cell)
 //! compact                           compact_files(target_rows_per_fragment = 2^20, materialize_deletions, threshold 0)
 //! index c<i> <btree|bitmap>         create_index([c<i>], kind, name i<i>, replace = true)
 //! optimize                          optimize_indices(default)
@@ -30,7 +30,8 @@
 //! Oracle (never looks at the Lean model): the two real scans return the same set of row addresses.  A difference is
 //! tagged `not_over_null` iff (i) no matching row is missing, (ii) the predicate is NULL (three-valued) on every extra row,
 //! (iii) every extra row has a NULL in a column that sits under a NOT of the index query the real planner built; anything
-//! else is unclassified (= a new violation).  A panic of an indexed scan is tagged `panic`.
+//! else is unclassified (= a new violation).  A panic of an indexed scan is tagged `panic`.  delete / update: the rows that
+//! disappear from their addresses must be the rows on which the predicate is TRUE; a difference is classified the same way.
 
 use std::collections::{BTreeMap, BTreeSet};
 use std::ops::Bound;
@@ -408,14 +409,23 @@ impl IndexInformationProvider for MockInfo {
 enum Op {
     Create(Vec<Row>),
     Append(Vec<Row>),
-    Delete(Expr),
-    Update(usize, Cell, Expr),
+    Delete(Expr, Option<Expr>),
+    Update(usize, Cell, Expr, Option<Expr>),
     Compact,
     Index(usize, bool), // true = btree
     Optimize,
     Plan(Vec<u64>, Expr),
     Scan(Expr, Option<Expr>),
     Ieval(IE),
+}
+
+/// `<expr> => <expr|?>`
+fn parse_pred_opt(t: &[&str]) -> Option<(Expr, Option<Expr>)> {
+    let at = t.iter().position(|x| *x == "=>")?;
+    let e = querykit::parse_all(&t[..at])?;
+    let o = if t[at + 1..] == ["?"] { None } else { Some(querykit::parse_all(&t[at + 1..])?) };
+    let ok = |e: &Expr| querykit::max_col(e).map(|m| m < K).unwrap_or(true);
+    (ok(&e) && o.as_ref().map(ok).unwrap_or(true)).then_some((e, o))
 }
 
 fn parse_op(line: &str) -> Option<Op> {
@@ -433,14 +443,14 @@ fn parse_op(line: &str) -> Option<Op> {
             Some(if t[0] == "create" { Op::Create(rs) } else { Op::Append(rs) })
         }
         "delete" => {
-            let e = querykit::parse_all(&t[1..])?;
-            (querykit::max_col(&e).map(|m| m < K).unwrap_or(true)).then_some(Op::Delete(e))
+            let (e, o) = parse_pred_opt(&t[1..])?;
+            Some(Op::Delete(e, o))
         }
         "update" if t.len() > 3 => {
             let c = querykit::parse_col(t[1]).filter(|c| *c < K)?;
             let v = parse_cell(t[2])?;
-            let e = querykit::parse_all(&t[3..])?;
-            (querykit::max_col(&e).map(|m| m < K).unwrap_or(true)).then_some(Op::Update(c, v, e))
+            let (e, o) = parse_pred_opt(&t[3..])?;
+            Some(Op::Update(c, v, e, o))
         }
         "compact" if t.len() == 1 => Some(Op::Compact),
         "optimize" if t.len() == 1 => Some(Op::Optimize),
@@ -458,11 +468,8 @@ fn parse_op(line: &str) -> Option<Op> {
             (querykit::max_col(&e).map(|m| m < K).unwrap_or(true) && cols.iter().all(|c| (*c as usize) < K)).then_some(Op::Plan(cols, e))
         }
         "scan" => {
-            let at = t.iter().position(|x| *x == "=>")?;
-            let e = querykit::parse_all(&t[1..at])?;
-            let o = if t[at + 1..] == ["?"] { None } else { Some(querykit::parse_all(&t[at + 1..])?) };
-            let ok = |e: &Expr| querykit::max_col(e).map(|m| m < K).unwrap_or(true);
-            (ok(&e) && o.as_ref().map(ok).unwrap_or(true)).then_some(Op::Scan(e, o))
+            let (e, o) = parse_pred_opt(&t[1..])?;
+            Some(Op::Scan(e, o))
         }
         "ieval" => {
             let (e, n) = parse_ie(&t[1..])?;
@@ -558,12 +565,12 @@ impl C19 {
             Op::Append(rows) => {
                 st.ds = kit.append(&st.ds, &Self::spec(), &[rows.clone()], &Knobs::default())?;
             }
-            Op::Delete(e) => {
+            Op::Delete(e, _) => {
                 let mut d = st.ds.clone();
                 kit.lance_call("delete", d.delete(&querykit::to_sql(e, &querykit::default_namer)))?;
                 st.ds = d;
             }
-            Op::Update(c, v, e) => {
+            Op::Update(c, v, e, _) => {
                 let ds = Arc::new(st.ds.clone());
                 let sql = querykit::to_sql(e, &querykit::default_namer);
                 let val = v.map(|x| x.to_string()).unwrap_or_else(|| "NULL".into());
@@ -625,7 +632,7 @@ impl Prop for C19 {
 
     fn budget(&self, tier: Tier) -> usize {
         match tier {
-            Tier::Quick => 260,
+            Tier::Quick => 200,
             Tier::Thorough => 6000,
             Tier::Search => 1500,
         }
@@ -688,7 +695,7 @@ impl Prop for C19 {
                     res.tags.push(
                         match op {
                             Op::Append(_) => "op:append",
-                            Op::Delete(_) => "op:delete",
+                            Op::Delete(..) => "op:delete",
                             Op::Update(..) => "op:update",
                             Op::Compact => "op:compact",
                             Op::Index(_, true) => "op:index_btree",
@@ -697,8 +704,17 @@ impl Prop for C19 {
                         }
                         .into(),
                     );
+                    let before = match op {
+                        Op::Delete(e, _) | Op::Update(_, _, e, _) => self.write_plan(s, e),
+                        _ => None,
+                    };
                     match self.mutate(s, op) {
-                        Ok(()) => self.dump(s).unwrap_or_else(|e| format!("err {}", e.kind.as_str())),
+                        Ok(()) => {
+                            if let (Some(b), Op::Delete(e, _) | Op::Update(_, _, e, _)) = (before, op) {
+                                self.write_oracle(s, e, b, ln, &mut res);
+                            }
+                            self.dump(s).unwrap_or_else(|e| format!("err {}", e.kind.as_str()))
+                        }
                         Err(e) => {
                             res.tags.push(format!("err:{}", e.kind.as_str()));
                             format!("err {}", e.kind.as_str())
@@ -802,6 +818,60 @@ impl C19 {
             return format!("ok opt=? plain={}", show_addrs(&plain));
         }
         format!("ok {head} idx={} plain={}", show_addrs(&idx), show_addrs(&plain))
+    }
+
+    /// before a delete / update: the table and the columns under a NOT of the index query the planner builds
+    fn write_plan(&self, s: &State, e: &Expr) -> Option<(Vec<(u64, Row)>, Option<BTreeSet<usize>>)> {
+        let table = self.table(&s.ds).ok()?;
+        let sql = querykit::to_sql(e, &querykit::default_namer);
+        let plan = (|| -> KitResult<_> {
+            let x = self.planner.parse_filter(&sql)?;
+            let info = self.kit.lance_call("scalar_index_info", s.ds.scalar_index_info())?;
+            Ok(self.planner.create_filter_plan(x, &info, true)?)
+        })()
+        .ok()?;
+        let under = plan.index_query.as_ref().and_then(ie_of_real).map(|ie| {
+            let mut u = BTreeSet::new();
+            cols_under_not(&ie, false, &mut u);
+            u
+        });
+        Some((table, under))
+    }
+
+    /// after a delete / update: the rows that left their addresses are the rows on which the predicate is TRUE
+    fn write_oracle(&self, s: &State, e: &Expr, before: (Vec<(u64, Row)>, Option<BTreeSet<usize>>), ln: usize, res: &mut CaseResult) {
+        let (table, under) = before;
+        let after: BTreeSet<u64> = match self.table(&s.ds) {
+            Ok(t) => t.into_iter().map(|(a, _)| a).collect(),
+            Err(_) => return,
+        };
+        let gone: BTreeSet<u64> = table.iter().map(|(a, _)| *a).filter(|a| !after.contains(a)).collect();
+        let want: BTreeSet<u64> = table.iter().filter(|(_, r)| querykit::eval3(e, r) == Some(true)).map(|(a, _)| *a).collect();
+        if gone == want {
+            return;
+        }
+        let rows: BTreeMap<u64, Row> = table.into_iter().collect();
+        let missing: Vec<u64> = want.difference(&gone).copied().collect();
+        let extra: Vec<u64> = gone.difference(&want).copied().collect();
+        let known = missing.is_empty()
+            && under.is_some()
+            && extra.iter().all(|a| {
+                let r = &rows[a];
+                querykit::eval3(e, r).is_none() && under.as_ref().unwrap().iter().any(|c| r[*c].is_none())
+            });
+        res.tags.push(if known { "write:not_over_null".into() } else { "write:other".into() });
+        res.failures.push(OracleFailure {
+            what: format!(
+                "delete / update WHERE `{}` touched the rows at [{}], the predicate is TRUE on [{}] (missing [{}], extra [{}])",
+                querykit::to_sql(e, &querykit::default_namer),
+                show_addrs(&gone),
+                show_addrs(&want),
+                show_nat_list(missing.iter().copied()),
+                show_nat_list(extra.iter().copied())
+            ),
+            key: if known { Some("not_over_null".into()) } else { None },
+            line: ln,
+        });
     }
 
     fn ieval_line(&self, s: &State, ie: &IE, ln: usize, res: &mut CaseResult) -> String {
@@ -945,10 +1015,18 @@ mod gen {
                 shadow.extend(rs);
             } else if m < 43 {
                 let e = querykit::gen_pred(rng, &shadow, K, &querykit::GenOpts { lo_pct: 5, hi_pct: 40, max_depth: 2, ..Default::default() });
-                lines.push(format!("delete {}", querykit::show(&e)));
+                let o = p.optimized(&e);
+                lines.push(format!("delete {} => {}", querykit::show(&e), o.as_ref().map(querykit::show).unwrap_or_else(|| "?".into())));
             } else if m < 51 {
                 let e = querykit::gen_pred(rng, &shadow, K, &querykit::GenOpts { lo_pct: 5, hi_pct: 50, max_depth: 2, ..Default::default() });
-                lines.push(format!("update c{} {} {}", rng.usize(K), show_cell(&cell(rng)), querykit::show(&e)));
+                let o = p.optimized(&e);
+                lines.push(format!(
+                    "update c{} {} {} => {}",
+                    rng.usize(K),
+                    show_cell(&cell(rng)),
+                    querykit::show(&e),
+                    o.as_ref().map(querykit::show).unwrap_or_else(|| "?".into())
+                ));
             } else if m < 59 {
                 lines.push("compact".into());
             } else if m < 65 {
@@ -983,7 +1061,7 @@ mod gen {
                 1 => "index c9 btree".to_string(),
                 2 => "ieval q c0 rg u".to_string(),
                 3 => "append 1,2".to_string(),
-                4 => "update c0 x T".to_string(),
+                4 => "update c0 x T => T".to_string(),
                 _ => "frobnicate".to_string(),
             };
             lines.insert(at, bad);
